@@ -295,6 +295,27 @@ func genXFuzz(r *Rng, tier string, n int, emit func(Case)) {
 			}
 		}
 	}
+	// every function name in every near-miss spelling, with 0-3 arguments: only the names of the table are functions
+	fnames := []string{"count", "current", "deref", "local-name", "re-match", "sum", "name", "lang", "id", "namespace-uri"}
+	for _, f := range c01Fns {
+		fnames = append(fnames, f.name)
+	}
+	for _, f := range fnames {
+		vars := []string{f, strings.ReplaceAll(f, "-", "_"), strings.ReplaceAll(f, "-", ""), strings.ReplaceAll(f, "-", "."), strings.ReplaceAll(f, "-", " -"),
+			strings.ToUpper(f[:1]) + f[1:], strings.ToUpper(f), f[:len(f)-1], f + "x", f + "s", "x" + f, f + "-", "-" + f, f + "_", "_" + f, strings.ReplaceAll(f, "-", "--")}
+		seen := map[string]bool{}
+		for _, v := range vars {
+			if seen[v] {
+				continue
+			}
+			seen[v] = true
+			for _, args := range []string{"", "'a'", "'a','b'", "'a','b','c'", "1,2", "a"} {
+				for _, g := range []string{"expr", "pathEval"} {
+					emit(mkBuildCase(g, v+"("+args+")", false, false))
+				}
+			}
+		}
+	}
 	for i := 0; i < n; i++ {
 		g := pick(r, []string{"expr", "expr", "leafref", "pathEval"})
 		var text string
